@@ -281,6 +281,90 @@ func boundaryVals(fi *fitmodel.FieldInfo) []fitmodel.Val {
 	return out
 }
 
+// boundary: Files whose encoding is larger than the decoder's 4096-byte
+// buffer, sized so that the definition message of a later slot (and its first
+// data records) start at every offset around the boundary. The heart_rate-only
+// records are 2 bytes each and the length of file_id.product_name gives the
+// odd offsets.
+func boundary(rec *hx.Recorder) {
+	n0 := 0
+	cells := int64(0)
+	fails := 0
+	mk := func(nrec, nameLen int, be bool) *gen.FileSpec {
+		fs := &gen.FileSpec{Type: 4, HdrCRC: true, Proto: 0x20, BigEndian: be,
+			FileId: gen.MsgSpec{Fields: map[string]fitmodel.Val{"ProductName": fitmodel.S(strings.Repeat("n", nameLen))}}}
+		recs := gen.SlotSpec{Name: "Records"}
+		for i := 0; i < nrec; i++ {
+			recs.Msgs = append(recs.Msgs, gen.MsgSpec{Global: 20, Fields: map[string]fitmodel.Val{"HeartRate": fitmodel.U(uint64(60 + i%100))}})
+		}
+		ev := gen.SlotSpec{Name: "Events"}
+		for i := 0; i < 3; i++ {
+			ev.Msgs = append(ev.Msgs, gen.MsgSpec{Global: 21, Fields: map[string]fitmodel.Val{
+				"Timestamp": fitmodel.T(fitmodel.FitEpochUnix+1000000000+int64(i), 0), "Event": fitmodel.U(uint64(i)), "Data": fitmodel.U(uint64(1000 + i))}})
+		}
+		lens := gen.SlotSpec{Name: "Lengths", Msgs: []gen.MsgSpec{{Global: 101, Fields: map[string]fitmodel.Val{"TotalStrokes": fitmodel.U(7)}}}}
+		// slot order in ActivityFile: Sessions, Laps, Records, DeviceInfos, Events, Lengths ...
+		fs.Slots = []gen.SlotSpec{recs, ev, lens}
+		return fs
+	}
+	// find the record count that puts the Events definition just before
+	// offset 4096 of the data area: measure with two sizes, then solve
+	defOff := func(n int) int {
+		f, err := gen.BuildFile(mk(n, 1, false))
+		if err != nil {
+			return -1
+		}
+		var buf bytes.Buffer
+		if fit.Encode(&buf, f, binary.LittleEndian) != nil {
+			return -1
+		}
+		p, perr := fitmodel.Parse(buf.Bytes())
+		if perr != nil {
+			return -1
+		}
+		for i, r := range p.Stream.Recs {
+			if r.IsDef && r.Global == 21 {
+				return p.Layout.RecStart[i] - int(p.Stream.HeaderSize)
+			}
+		}
+		return -1
+	}
+	o10, o20 := defOff(10), defOff(20)
+	if o10 > 0 && o20 > o10 {
+		per := (o20 - o10) / 10
+		n0 = 10 + (4096-40-o10)/per
+		for n0 > 1 && defOff(n0) > 4096-40 {
+			n0--
+		}
+	}
+	if n0 == 0 {
+		rec.Note("boundary: could not size the file")
+		return
+	}
+	for shift := 0; shift <= 90; shift++ {
+		for _, be := range []bool{false, true} {
+			fs := mk(n0+shift/2, 1+shift%2, be)
+			cells++
+			if msg, ok := roundTrip(rec, fs, map[string]int{}); !ok {
+				fails++
+				if fails <= 3 {
+					rec.Fail("boundary", "", fmt.Sprintf("%d records, product_name of %d bytes, bigEndian=%v (encoding larger than 4096 bytes):\n%s", n0+shift/2, 1+shift%2, be, trunc(msg)), map[string]any{"records": n0 + shift/2, "name_len": 1 + shift%2, "big_endian": be})
+				}
+			}
+		}
+	}
+	rec.Eval("boundary", cells)
+	rec.NonTrivialEnum(cells)
+	rec.Class("boundary: files larger than 4096 bytes", cells)
+}
+
+func trunc(s string) string {
+	if len(s) > 600 {
+		return s[:600] + "…"
+	}
+	return s
+}
+
 func TestC06(t *testing.T) {
 	hx.Main(t, "C06", func(rec *hx.Recorder) {
 		if rp, ok := hx.LoadReplay(); ok {
@@ -296,6 +380,7 @@ func TestC06(t *testing.T) {
 		}
 		if hx.FirstShard() {
 			sweep(rec)
+			boundary(rec)
 		}
 		hx.RapidCheck(t, rec, "files", func(rt *rapid.T, fail func(string, string, any)) {
 			fs := gen.GenFile(gen.D{T: rt}, gen.DefaultFileOpts())
